@@ -38,6 +38,9 @@ def pools(tier, seed):
         te = {'L': L, 'layout': 'plain', 'roles': rn, 'depth': d, 'struct': len(ex) > 3 and ex[3], 'part': 0, 'parts': 1}
         A = A + explore.std_pool(te, seed + 3).items
     A = A + [([['plain', '']], build([['plain', '']]))]
+    for kind in ('dup1', 'dup2'):
+        hh = explore.dup_hist(kind, explore.letters(seed, 3), seed)
+        A.append((hh, build(hh)))
     # operands whose seam lies beyond offset 256
     R = explore.roles(seed)
     long_t = 'y' * explore.LONG + 'ab'
